@@ -160,6 +160,19 @@ def run(chk):
         judge(chk, "Sphere", "sphere", sh, Q, exact, 4 / 3 * math.pi * R ** 3, dict(radius=R, center=c.tolist()))
 
 
+def face_under_threshold(sh, Q):
+    """mask over Q: some face of the polyhedron sees a projected wave vector with 0 < |q_proj|^2 <= 1e-8 (the recorded
+    zero-q-absolute-threshold finding, which for polyhedra applies face by face: that face contributes its plain area, phase lost)"""
+    Vv = np.asarray(sh.vertices, float)
+    m = np.zeros(len(Q), bool)
+    for f in sh.faces:
+        nrm = np.cross(Vv[f[2]] - Vv[f[1]], Vv[f[0]] - Vv[f[1]]); nrm = nrm / np.linalg.norm(nrm)
+        qp = Q - np.outer(Q @ nrm, nrm)
+        q2 = np.sum(qp * qp, axis=1)
+        m |= (q2 > 0) & (q2 <= 1.0001e-8)
+    return m
+
+
 def judge(chk, cls, kind, sh, Q, exact, measure, desc):
     tol = 1e-5 * measure + 1e-9
     density = 1.75
@@ -192,6 +205,12 @@ def judge(chk, cls, kind, sh, Q, exact, measure, desc):
             chk.known_finding("zero-q-absolute-threshold", "form factor treats every q with |q|^2 <= 1e-8 as zero and returns the plain area/volume without the phase")
             chk.count("known:zero-q-threshold", int(np.sum(hit)))
             err = np.where(hit, 0.0, err)
+        if cls != "Polygon":
+            hitf = face_under_threshold(sh, Q) & (err > density * tol)
+            if np.any(hitf):
+                chk.known_finding("zero-q-absolute-threshold", "form factor treats every q with |q|^2 <= 1e-8 as zero and returns the plain area/volume without the phase")
+                chk.count("known:zero-q-threshold(per face)", int(np.sum(hitf)))
+                err = np.where(hitf, 0.0, err)
     d.pop("_size", None); d.pop("_offc", None)
     k = int(np.argmax(err))
     if err[k] > density * tol:
@@ -223,6 +242,10 @@ def translation_law(chk, sh, Q, vol):
         sh2 = coxeter.shapes.Polyhedron(V + t, [np.array(f) for f in sh.faces])
     size = float(np.max(np.linalg.norm(V - V.mean(0), axis=1))) * 2
     Q = Q[np.linalg.norm(Q, axis=1) * size >= 0.05]
+    if chk.is_known("zero-q-absolute-threshold"):
+        Q = Q[~face_under_threshold(sh, Q)]      # (the recorded per-face threshold finding is judged in [judge])
+    if len(Q) == 0:
+        return
     a = C.excname(lambda: np.asarray(sh.compute_form_factor_amplitude(Q.copy())))
     b = C.excname(lambda: np.asarray(sh2.compute_form_factor_amplitude(Q.copy())))
     if a[0] == "ok" and b[0] == "ok" and np.max(np.abs(b[1] - a[1] * np.exp(-1j * Q @ t))) > 1e-7 * vol + 1e-9:
